@@ -84,7 +84,7 @@ func versionCases(fn *ssa.Function, isV func(ssa.Value) bool) (cases []int64, ha
 func c19(c *Ctx) {
 	p, r := c.P, c.R
 	r.Technique = "single-source value-flow check of every version-dependent branch; sibling agreement of the version sets handled by accept building, accept parsing and the advertised default; must-pass-through (cut) checks for error propagation and error-gated caching in the negotiation helper"
-	r.Explanation = "Decides: (R1) every version-dependent branch (accept building, accept parsing, uTP framing in both directions, the RPC's bit-list conversion) takes its operand from the one negotiation helper applied to a peer record, and every caller of the helper returns without transfer when it reports an error; the record given to the helper is the one the exchange came with (followed through parameters and captured variables to the talk handler), never one looked up in the routing table; the local version list is the local record's entry (or the default) as it is, not a part or rearrangement of it; (R2) the version sets handled by accept building and accept parsing are equal to each other and to the advertised default set, both reject other versions with the unsupported-version error, and the uTP encoder and decoder dispatch on the same version constant to the inverse pair of framing functions; (R3) in the helper: a cached value is returned as is, an absent record key yields the first local version, the computed error is returned, the result is the highest-common-version function applied to (local versions, peer versions), and the cache is written only on paths where the error is nil. Not decided: the max-of-intersection computation over all subsets (value level), live transfers."
+	r.Explanation = "Decides: (R1) every version-dependent branch (accept building, accept parsing, uTP framing in both directions, the RPC's bit-list conversion) takes its operand from the one negotiation helper applied to a peer record, and every caller of the helper returns without transfer when it reports an error; the record given to the helper is the one the exchange came with (followed through parameters and captured variables to the talk handler), never one looked up in the routing table; the local version list is the local record's entry (or the default) as it is, not a part or rearrangement of it; (R2) the version sets handled by accept building and accept parsing are equal to each other and to the advertised default set, both reject other versions with the unsupported-version error, and the uTP encoder and decoder dispatch on the same version constant to the inverse pair of framing functions, which are called only under a comparison of the negotiated version with a constant; (R3) in the helper: a cached value is returned as is, an absent record key yields the first local version, the computed error is returned, the result is the highest-common-version function applied to (local versions, peer versions), and the cache is written only on paths where the error is nil. Not decided: the max-of-intersection computation over all subsets (value level), live transfers."
 	r.Assumptions = []string{"enr.IsNotFound identifies an absent key", "the versions cache is a faithful map"}
 	r.Floor("R1.single-source", 5)
 	r.Floor("R1.error-stops", 5)
@@ -402,6 +402,40 @@ func c19(c *Ctx) {
 				})
 			}
 			r.Check(raw, "R2.version-sets", core.FuncName(f)+" raw-branch", p.Pos(f.Pos()), "other versions pass the bytes through unchanged", "the non-prefixed branch does not return its input unchanged")
+			// framing is decided by the negotiated version, not by what the bytes look like: every
+			// call of the length-prefix codec sits behind a comparison of the version with a constant
+			{
+				var vers []ssa.Value
+				for _, cn := range consumers {
+					if cn.fn == f {
+						vers = append(vers, cn.value)
+					}
+				}
+				byVersion := core.AnyFact(func(fc core.Fact) bool {
+					if fc.Op != token.EQL {
+						return false
+					}
+					for _, pr := range [][2]ssa.Value{{fc.X, fc.Y}, {fc.Y, fc.X}} {
+						if _, isC := core.ConstInt(pr[1]); !isC {
+							continue
+						}
+						for _, v := range vers {
+							if core.Unwrap(pr[0]) == v || pr[0] == v {
+								return true
+							}
+						}
+					}
+					return false
+				})
+				core.Calls(f, func(ci ssa.CallInstruction) {
+					cf := core.StaticCalleeFn(ci)
+					if cf == nil || !core.InModule(cf) || (len(core.CallsTo(cf, lebEncode32)) == 0 && len(core.CallsTo(cf, lebDecode32)) == 0) {
+						return
+					}
+					w := core.InstrGuarded(ci, byVersion, nil)
+					r.Check(w == nil && len(vers) > 0, "R2.version-sets", core.FuncName(f)+" frames-by-version "+shortID(core.CalleeID(ci)), p.Pos(ci.Pos()), "the length-prefix codec is applied only under a comparison of the negotiated version with a constant", "the length-prefix codec is applied without regard to the negotiated version (e.g. tried on every payload and kept when it happens to parse): between peers whose common version has no prefix, content that starts like a prefix of its own length is silently cut: "+p.PathString(w))
+				})
+			}
 		}
 	}
 
